@@ -10,6 +10,7 @@ import (
 	"io"
 	"math/rand"
 	"os"
+	"time"
 
 	"github.com/folbricht/desync"
 
@@ -72,6 +73,21 @@ func errClass(err error) string {
 		return "eof"
 	}
 	return "error"
+}
+
+// guard runs one call of the real reader; a call that does not return within 10 s is recorded as a hang and ends the run
+// (the spinning goroutine cannot be stopped): exit status 4, the trace so far is complete.
+func guard(w *trace.Writer, op string, f func()) {
+	done := make(chan struct{})
+	go func() { defer close(done); f() }()
+	select {
+	case <-done:
+	case <-time.After(10 * time.Second):
+		w.Emit(trace.M("ev", "hang", "op", op))
+		w.Close()
+		fmt.Fprintln(os.Stderr, "HANG: the reader did not return from", op)
+		os.Exit(4)
+	}
 }
 
 func main() {
@@ -167,7 +183,9 @@ func main() {
 				if whence == 1 {
 					d = r.Intn(2*max+1) - max
 				}
-				np, err := rs.Seek(int64(d), whence)
+				var np int64
+				var err error
+				guard(w, "seek", func() { np, err = rs.Seek(int64(d), whence) })
 				w.Emit(trace.M("ev", "seek", "whence", whence, "d", d, "np", np, "err", errClass(err)))
 			case x < 9:
 				m := []int{0, 1, 2, max, max + 1, 2 * max, L + 3, r.Intn(L + 2)}[r.Intn(8)]
@@ -175,13 +193,17 @@ func main() {
 				for i := range buf {
 					buf[i] = 0xEE
 				}
-				nn, err := rs.Read(buf)
+				var nn int
+				var err error
+				guard(w, "read", func() { nn, err = rs.Read(buf) })
 				w.Emit(trace.M("ev", "read", "m", m, "n", nn, "data", ints(buf[:nn]), "err", errClass(err)))
 			default: // FUSE handle read(off, size), its own position
 				off := r.Intn(L + 3)
 				m := []int{0, 1, max, 2*max + 1, L + 2, r.Intn(L + 2)}[r.Intn(6)]
 				buf := make([]byte, m)
-				b, errno := fuse(buf, int64(off))
+				var b []byte
+				var errno int
+				guard(w, "fuse", func() { b, errno = fuse(buf, int64(off)) })
 				w.Emit(trace.M("ev", "fuse", "off", off, "m", m, "n", len(b), "data", ints(b), "errno", errno))
 			}
 		}
